@@ -3,7 +3,7 @@ package main
 // Shrinking of a failing case: drop items, simplify chunking, shorten items.
 
 func stillFails(c Case, prop string, f finding, d *driver, known []knownFinding) bool {
-	res := runCase(&c, d, runOpts{probeLock: prop == "C15"})
+	res := runCase(&c, d, runOpts{probeLock: prop == "C15", keepGoing: keepGoingProps[prop]})
 	for _, g := range res.Findings {
 		if g.Kind == "driver" {
 			return false
